@@ -939,7 +939,7 @@ class Context:
 
                 def check_timeout() -> bool:
                     """Return True if time limit exceeded (to abort regex)."""
-                    return time.monotonic() - vm.start_time > vm.time_limit
+                    return time.monotonic() - vm._live().start_time > vm.time_limit
 
                 poll_callback = check_timeout
             return JSRegExp(pattern, flags, poll_callback)
